@@ -145,6 +145,16 @@ pub fn phase(sim: &mut Sim, rng: &mut Rng, rep: &mut Report) -> Result<(), Strin
 		sim.dispatch(rep);
 	}
 	sim.w.miner_delay_max = *rng.pick(&[0u32, 0, 1, 3, 6, 12]);
+	// in half of the runs the miner has a fee policy that follows the fee level, and the level walks
+	// (only for channel types whose every transaction can be fee-bumped: the pre-signed commitment and HTLC
+	// transactions of a pre-anchor channel cannot follow a rising fee level by construction)
+	let fee_market = rng.chance(1, 2) && sim.w.chans[ci].ctype != crate::model::ChanType::Legacy;
+	if fee_market {
+		sim.w.miner_delay_max = sim.w.miner_delay_max.min(3);
+		sim.w.miner_min_feerate = sim.w.fee_now;
+		sim.w.fee_market_used = true;
+		rep.count("onchain_runs_with_fee_sensitive_miner");
+	}
 	let cut_first = rng.chance(1, 2);
 	if cut_first {
 		sim.w.note(format!("ONCHAIN disconnect node{} node{} for good", a, b));
@@ -169,6 +179,7 @@ pub fn phase(sim: &mut Sim, rng: &mut Rng, rep: &mut Report) -> Result<(), Strin
 		sim.w.step += 1;
 		sim.w.note(format!("ONCHAIN node{} cheats: its revoked commitment {} (captured at step {}) is broadcast", c.node, c.txid, c.step));
 		sim.w.chans[ci].fault = Some("revoked commitment broadcast".into());
+		sim.w.miner_exempt.insert(c.txid);
 		let v = sim.w.chain.relay(&c.txs[0]);
 		sim.w.obs.push_back(Obs::Relay { step: sim.w.step, node: usize::MAX, tx: c.txs[0].clone(), verdict: v.clone() });
 		if !matches!(v, crate::chain::TxVerdict::Valid) {
@@ -209,8 +220,24 @@ pub fn phase(sim: &mut Sim, rng: &mut Rng, rep: &mut Report) -> Result<(), Strin
 	let start = sim.w.chain.height();
 	let mut quiet_blocks = 0;
 	let mut attacker_stage2_done = false;
-	for _ in 0..420 {
+	for _ in 0..600 {
 		let before = sim.w.chain.stats_validated;
+		if fee_market && rng.chance(1, 8) {
+			let cur = sim.w.fee_now;
+			let new = match rng.below(4) {
+				0 | 1 => cur.saturating_mul(2),
+				2 => cur / 2,
+				_ => cur + 250,
+			}
+			.clamp(253, 12_000);
+			sim.w.note(format!("ONCHAIN fee level {} -> {} (estimators and miner policy)", cur, new));
+			for k in 0..n {
+				sim.w.nodes[k].set_fee(new);
+			}
+			sim.w.fee_now = new;
+			sim.w.miner_min_feerate = new;
+			rep.count("onchain_fee_level_changes");
+		}
 		sim.w.mine(1);
 		for k in 0..n {
 			sim.w.nodes[k].mon.rebroadcast_pending_claims();
@@ -234,6 +261,7 @@ pub fn phase(sim: &mut Sim, rng: &mut Rng, rep: &mut Report) -> Result<(), Strin
 				let v = sim.w.chain.validate(&t);
 				if matches!(v, crate::chain::TxVerdict::Valid | crate::chain::TxVerdict::ValidChild) {
 					if rng.chance(2, 3) {
+						sim.w.miner_exempt.insert(t.compute_txid());
 						sim.w.chain.relay(&t);
 						sim.w.note(format!("ONCHAIN cheater broadcasts its HTLC transaction {}", t.compute_txid()));
 						if let Some(c) = sim.w.close.as_mut() {
@@ -275,6 +303,7 @@ pub fn phase(sim: &mut Sim, rng: &mut Rng, rep: &mut Report) -> Result<(), Strin
 		}
 	}
 	rep.add("onchain_blocks_mined", (sim.w.chain.height() - start) as u64);
+	sim.w.miner_min_feerate = 0;
 	// --- 4. sweep every spendable output to the owner's wallet script ---
 	let secp = Secp256k1::new();
 	for k in 0..n {
